@@ -204,7 +204,7 @@ theorem genDynHelperFns_mem {env : Env} {req : DynReq} {tr : String} {forTy : Ty
 theorem closed_funcs_nodup {env : Env} {file : AFile} {n : Nat} {G : List String} (h : closedOKD env file n G = true) :
     ((goFilePreSt env file n).1.funcs.map (·.name)).Nodup := by
   simp only [closedOKD, fileOK, Bool.and_eq_true] at h
-  obtain ⟨⟨⟨⟨⟨⟨⟨⟨⟨⟨hndF, _⟩, _⟩, _⟩, _⟩, _⟩, _⟩, _⟩, _⟩, _⟩, _⟩ := h
+  obtain ⟨⟨⟨⟨⟨⟨⟨⟨⟨⟨⟨hndF, _⟩, _⟩, _⟩, _⟩, _⟩, _⟩, _⟩, _⟩, _⟩, _⟩, _⟩ := h
   exact of_decide_eq_true hndF
 
 /-- `closedOK` is `closedOKD` without the trait-object flag -/
@@ -233,7 +233,7 @@ theorem link_of_closedD {env : Env} {file : AFile} {n : Nat} {G : List String} (
       ∃ i, P.impls.find? (fun i => i.1 == tr && i.2.1 == Sem.tyKey forTy && i.2.2.1 == s.1) = some i ∧
         i.2.2.2 = Goml.Mono.traitImplFnName tr forTy s.1) : Link env file G P (goFilePreSt env file n).1 := by
   simp only [closedOKD, fileOK, Bool.and_eq_true] at h
-  obtain ⟨⟨⟨⟨⟨⟨⟨⟨⟨⟨hndF, hndS⟩, hnb⟩, hres⟩, hstr⟩, htab⟩, hetab⟩, hrtab⟩, httab⟩, hdtab⟩, hchk⟩ := h
+  obtain ⟨⟨⟨⟨⟨⟨⟨⟨⟨⟨⟨hndF, hndS⟩, hnb⟩, hres⟩, hstr⟩, htab⟩, hetab⟩, hrtab⟩, httab⟩, hdtab⟩, hrecvtab⟩, hchk⟩ := h
   have hndF := of_decide_eq_true hndF
   have hndS := of_decide_eq_true hndS
   have hfuncs := funcs_goFilePre env file n
@@ -367,13 +367,21 @@ theorem link_of_closedD {env : Env} {file : AFile} {n : Nat} {G : List String} (
       simpa [GFile.findFunc] using this
     have htb := List.all_eq_true.mp hdtab tr (List.mem_append_right _ (List.mem_map_of_mem (f := (·.1)) hvt))
     simp only [dynEntryOK, Bool.and_eq_true] at hent
-    obtain ⟨_, hsig⟩ := hent
+    obtain ⟨⟨⟨_, hval⟩, _⟩, hsig⟩ := hent
     cases hts : traitMethodSigs env tr with
     | none => rw [hts] at hsig; cases hsig
     | some sigs =>
       rw [hts] at hsig; simp only [Bool.and_eq_true, decide_eq_true_eq] at hsig
       simp only [dynStructTableOK, hts, Bool.and_eq_true] at htb
-      refine ⟨?_, fun s hs => ?_, ?_, ?_, by rw [hts]; simpa using hsig.1⟩
+      refine ⟨?_, fun s hs => ?_, ?_, ?_, by rw [hts]; simpa using hsig.1, ?_⟩
+      rotate_left 4
+      · -- an enum receiver: the variant structs implement the enum's interface
+        intro en hen d hde vr hvr
+        subst hen
+        have hrt := List.all_eq_true.mp hrecvtab (tr, .enum en) hvt
+        simp only [dynRecvTableOK, hval, Bool.not_true, Bool.false_or] at hrt
+        rw [hde] at hrt
+        exact List.all_eq_true.mp hrt vr hvr
       · have := hfind _ (hmid _ m1); simpa [genDynVtableCtorFn] using this
       · have := hfind _ (hmid _ (m2 s hs)); simpa [genDynWrapFn] using this
       · cases hd1 : (goFilePreSt env file n).1.structFields (dynStructName tr) with
